@@ -119,6 +119,13 @@ func (e c13El) dump() string {
 
 func (e c13El) fid() osm.FeatureID { return c13FID(e.kind, e.id()) }
 
+// c13Packable: the id fits the 40 bits a packed FeatureID / ObjectID has for it.
+func c13Packable(id int64) bool { return id >= 0 && id < 1<<40 }
+
+// c13OddIDs are element ids outside (or at the edge of) the packed-id domain: editor
+// placeholders of not yet uploaded objects (negative), 0, 2^40 and above, near +-2^62.
+var c13OddIDs = []int64{-1, -2, -1000, 0, 1 << 40, 1<<40 + 5, 1 << 47, 1<<62 - 3, -(1 << 62) + 3, -(1 << 40)}
+
 func c13FID(kind int, id int64) osm.FeatureID {
 	switch kind {
 	case c13Node:
@@ -535,7 +542,7 @@ func c13Changeset(e c13El) int64 {
 // ---------------------------------------------------------------------------------------
 // datasource wrapper: implements osm.HistoryDatasourcer, records calls, injects errors
 
-type c13NotFound struct{ id osm.FeatureID }
+type c13NotFound struct{ id c13Key }
 
 func (e *c13NotFound) Error() string { return "c13: nothing stored for " + e.id.String() }
 
@@ -557,7 +564,7 @@ type c13DS struct {
 	ways      map[osm.WayID]osm.Ways
 	relations map[osm.RelationID]osm.Relations
 	lib       *osm.HistoryDatasource
-	fault     map[osm.FeatureID]int
+	fault     map[c13Key]int
 	injected  *c13Injected
 	calls     []string
 	nfCalls   int
@@ -578,7 +585,7 @@ func (ds *c13DS) srcDump() string {
 // source object a previous execution handed to the library.
 func c13NewDS(m *c13Model, reuse *c13DS) *c13DS {
 	if m.built() {
-		ds := &c13DS{mode: m.mode, fault: map[osm.FeatureID]int{}, injected: &c13Injected{what: "connection reset"}}
+		ds := &c13DS{mode: m.mode, fault: map[c13Key]int{}, injected: &c13Injected{what: "connection reset"}}
 		if reuse != nil {
 			ds.srcOSM, ds.srcChange = reuse.srcOSM, reuse.srcChange
 		} else {
@@ -591,12 +598,12 @@ func c13NewDS(m *c13Model, reuse *c13DS) *c13DS {
 		}
 		ds.nodes, ds.ways, ds.relations = ds.lib.Nodes, ds.lib.Ways, ds.lib.Relations
 		for k, f := range m.fault {
-			ds.fault[c13FID(k.kind, k.id)] = f
+			ds.fault[k] = f
 		}
 		return ds
 	}
 	ds := &c13DS{mode: m.mode, nodes: map[osm.NodeID]osm.Nodes{}, ways: map[osm.WayID]osm.Ways{}, relations: map[osm.RelationID]osm.Relations{},
-		fault: map[osm.FeatureID]int{}, injected: &c13Injected{what: "connection reset"}}
+		fault: map[c13Key]int{}, injected: &c13Injected{what: "connection reset"}}
 	for k, h := range m.hist {
 		if !h.present {
 			continue
@@ -626,12 +633,12 @@ func c13NewDS(m *c13Model, reuse *c13DS) *c13DS {
 		ds.lib = &osm.HistoryDatasource{Nodes: ds.nodes, Ways: ds.ways, Relations: ds.relations}
 	}
 	for k, f := range m.fault {
-		ds.fault[c13FID(k.kind, k.id)] = f
+		ds.fault[k] = f
 	}
 	return ds
 }
 
-func (ds *c13DS) notFoundErr(id osm.FeatureID) error {
+func (ds *c13DS) notFoundErr(id c13Key) error {
 	switch ds.mode {
 	case c13DSTyped:
 		return fmt.Errorf("lookup %v: %w", id, &c13NotFound{id: id})
@@ -644,7 +651,7 @@ func (ds *c13DS) notFoundErr(id osm.FeatureID) error {
 }
 
 // faultFor returns the flavour and the error injected for the feature (nil: none).
-func (ds *c13DS) faultFor(id osm.FeatureID) (int, error) {
+func (ds *c13DS) faultFor(id c13Key) (int, error) {
 	f, ok := ds.fault[id]
 	if !ok {
 		return 0, nil
@@ -661,8 +668,9 @@ func (ds *c13DS) faultFor(id osm.FeatureID) (int, error) {
 }
 
 func (ds *c13DS) NodeHistory(ctx context.Context, id osm.NodeID) (osm.Nodes, error) {
-	ds.calls = append(ds.calls, id.FeatureID().String())
-	if f, err := ds.faultFor(id.FeatureID()); err != nil {
+	k := c13Key{c13Node, int64(id)}
+	ds.calls = append(ds.calls, k.String())
+	if f, err := ds.faultFor(k); err != nil {
 		if f == c13FaultWithHis {
 			return ds.nodes[id], err
 		}
@@ -673,14 +681,15 @@ func (ds *c13DS) NodeHistory(ctx context.Context, id osm.NodeID) (osm.Nodes, err
 	}
 	h, ok := ds.nodes[id]
 	if !ok {
-		return nil, ds.notFoundErr(id.FeatureID())
+		return nil, ds.notFoundErr(k)
 	}
 	return h, nil
 }
 
 func (ds *c13DS) WayHistory(ctx context.Context, id osm.WayID) (osm.Ways, error) {
-	ds.calls = append(ds.calls, id.FeatureID().String())
-	if f, err := ds.faultFor(id.FeatureID()); err != nil {
+	k := c13Key{c13Way, int64(id)}
+	ds.calls = append(ds.calls, k.String())
+	if f, err := ds.faultFor(k); err != nil {
 		if f == c13FaultWithHis {
 			return ds.ways[id], err
 		}
@@ -691,14 +700,15 @@ func (ds *c13DS) WayHistory(ctx context.Context, id osm.WayID) (osm.Ways, error)
 	}
 	h, ok := ds.ways[id]
 	if !ok {
-		return nil, ds.notFoundErr(id.FeatureID())
+		return nil, ds.notFoundErr(k)
 	}
 	return h, nil
 }
 
 func (ds *c13DS) RelationHistory(ctx context.Context, id osm.RelationID) (osm.Relations, error) {
-	ds.calls = append(ds.calls, id.FeatureID().String())
-	if f, err := ds.faultFor(id.FeatureID()); err != nil {
+	k := c13Key{c13Rel, int64(id)}
+	ds.calls = append(ds.calls, k.String())
+	if f, err := ds.faultFor(k); err != nil {
 		if f == c13FaultWithHis {
 			return ds.relations[id], err
 		}
@@ -709,7 +719,7 @@ func (ds *c13DS) RelationHistory(ctx context.Context, id osm.RelationID) (osm.Re
 	}
 	h, ok := ds.relations[id]
 	if !ok {
-		return nil, ds.notFoundErr(id.FeatureID())
+		return nil, ds.notFoundErr(k)
 	}
 	return h, nil
 }
@@ -788,7 +798,7 @@ func (o c13Out) errClass() string {
 	}
 	var nv *annotate.NoVisibleChildError
 	if errors.As(o.err, &nv) && nv != nil {
-		return "NoVisibleChildError(" + nv.ID.String() + ")"
+		return fmt.Sprintf("NoVisibleChildError(%#x)", int64(nv.ID))
 	}
 	return fmt.Sprintf("other(%T)", o.err)
 }
@@ -1041,7 +1051,7 @@ func c13CheckObs(m *c13Model, out c13Out) (fs []c13Finding, inCellOrder int) {
 		var nv *annotate.NoVisibleChildError
 		if errors.As(out.err, &nv) && nv != nil {
 			if len(missing) == 0 {
-				add("error-injected-not-returned", injected[0], "datasource error for %s must be returned as is, got a *NoVisibleChildError for %v", m.items[injected[0]].el.str(), nv.ID)
+				add("error-injected-not-returned", injected[0], "datasource error for %s must be returned as is, got a *NoVisibleChildError for feature id %#x", m.items[injected[0]].el.str(), int64(nv.ID))
 				return fs, inCellOrder
 			}
 			for _, i := range missing {
@@ -1049,7 +1059,13 @@ func c13CheckObs(m *c13Model, out c13Out) (fs []c13Finding, inCellOrder int) {
 					return fs, inCellOrder
 				}
 			}
-			add("error-id", missing[0], "*NoVisibleChildError names %v, which is not one of the elements without an earlier version (first of them: %s)", nv.ID, m.items[missing[0]].el.str())
+			for _, i := range missing {
+				if !c13Packable(m.items[i].el.id()) {
+					// a FeatureID cannot name an id outside [0, 2^40): the ID field is not asserted then
+					return fs, inCellOrder
+				}
+			}
+			add("error-id", missing[0], "*NoVisibleChildError names %#x, which is not one of the elements without an earlier version (first of them: %s)", int64(nv.ID), m.items[missing[0]].el.str())
 			return fs, inCellOrder
 		}
 		if len(missing) == 0 {
@@ -1530,6 +1546,9 @@ func c13GenModel(r *gen.R) *c13Model {
 			if r.Chance(0.1) {
 				id = r.Int64Range(1<<20, 1<<40-1)
 			}
+			if r.Chance(0.12) {
+				id = c13OddIDs[r.Intn(len(c13OddIDs))]
+			}
 			if !seen[id] {
 				seen[id] = true
 				pools[k] = append(pools[k], id)
@@ -1840,6 +1859,46 @@ func c13Exec(c fw.Case) *fw.Result {
 		res.Add("enumerated_source_layouts", int64(n))
 		res.Sample = map[string]any{"kind": c13KindName[kind], "datasource": c13ModeName[mode], "layouts": n,
 			"histories": "A=v1,v2,v3 B=v1,v2 in every interleaving (and every admissible section spread for a change)"}
+	case "enum-ids":
+		// seed-independent: ids outside the packed-id domain (and one ordinary id as control) in all
+		// nine cells at once - node, way and relation share the id - with histories keyed by the same
+		// id; then one kind without history / with only its own version, strict and ignoring.
+		r := gen.New(c.Seed, "c13ids")
+		n := 0
+		for _, id := range append([]int64{12345}, c13OddIDs...) {
+			for failKind := -1; failKind < 3; failKind++ {
+				for failClass := 0; failClass < 2; failClass++ {
+					if failKind < 0 && failClass > 0 {
+						continue
+					}
+					for ign := 0; ign < 2; ign++ {
+						for mode := 0; mode < c13NModes; mode++ {
+							m := &c13Model{hist: map[c13Key]*c13Hist{}, fault: map[c13Key]int{}, mode: mode, opt: ign + 3*(n%c13NUnrelated)}
+							for sec := 0; sec < 3; sec++ {
+								for kind := 0; kind < 3; kind++ {
+									m.items = append(m.items, c13Item{sec, c13MakeEl(r, kind, id, []int{9, 3, 4}[sec], false)})
+								}
+							}
+							for kind := 0; kind < 3; kind++ {
+								h := &c13Hist{present: true, entries: []c13El{c13MakeEl(r, kind, id, 2, false), c13MakeEl(r, kind, id, 1, false)}}
+								if kind == failKind {
+									if failClass == 0 {
+										continue // no history at all
+									}
+									h.entries = []c13El{c13MakeEl(r, kind, id, 3, false), c13MakeEl(r, kind, id, 4, false)}
+								}
+								m.hist[c13Key{kind, id}] = h
+							}
+							c13Judge(res, m, c, false)
+							n++
+						}
+					}
+				}
+			}
+		}
+		res.Add("enumerated_odd_id_changes", int64(n))
+		res.Sample = map[string]any{"ids": append([]int64{12345}, c13OddIDs...), "changes": n,
+			"shape": "create v9, modify v3, delete v4 of node, way and relation with the same id; histories v2,v1; one kind without history or with only v3,v4; strict and ignoring; all datasource kinds"}
 	case "grey":
 		// versions <= 0 are outside what OSM calls a version; executed, never asserted
 		r := gen.New(c.Seed, "c13grey")
@@ -1868,7 +1927,7 @@ func init() {
 	fw.Register(&fw.Prop{
 		ID:    "C13",
 		Level: "exploration",
-		Rule: "random (osmChange, histories, option, datasource) triples from a harness-side model: 0-4 elements in each of the nine (create|modify|delete)x(node|way|relation) cells over small id pools " +
+		Rule: "random (osmChange, histories, option, datasource) triples from a harness-side model: 0-4 elements in each of the nine (create|modify|delete)x(node|way|relation) cells over small id pools (12 % of the ids outside the packed-id domain: negative, 0, >= 2^40, near +-2^62) " +
 			"(same feature in several sections), histories sorted/reversed/shuffled with version gaps, later versions, duplicates of the element's own version, duplicated predecessors, large versions, empty, or not found; " +
 			"54 option sets (IgnoreMissingChildren absent|true|false x Threshold absent|1m x IgnoreInconsistency absent|true|false x ChildFilter absent|reject|accept), in the enumeration every history without predecessor and every injected-error flavour against all 18 combinations of the options that must not matter; five datasource behaviours behind a call-recording wrapper (own sentinel, own wrapped typed error, the library's map datasource filled directly, and histories handed over as an *osm.OSM or spread over the sections of an *osm.Change and turned into a datasource by the library's own HistoryDatasource() methods - grouped, interleaved, round-robin or two-run layouts) that can inject a non-not-found error (three flavours); " +
 			"plus a seed-independent small-scope enumeration: one modified/deleted element of version 1..6 against every subset of history versions 1..6 in five orders, empty and missing, per kind, section and option, and two histories handed to HistoryDatasource() in every interleaving and every admissible section spread. " +
@@ -1881,7 +1940,8 @@ func init() {
 			"when the greatest version below the element's own occurs twice in a history, either entry is accepted as the old state",
 			"the call rewrites the Visible flag of the input elements in place (they are shared with the diff); input immutability is not part of the statement, so changes to the input are counted as observations, not asserted",
 			"create actions must carry exactly one element in Action.OSM and none in Old/New, modify/delete exactly one in Old and one in New and none in Action.OSM (diff.go documents this population); nil and empty are treated alike; Diff.Changesets and the attributes of the wrapping *osm.OSM are not asserted",
-			"versions <= 0, negative ids, nil elements and a cancelled context are outside the statement: versions <= 0 are executed without assertion, the others are not generated",
+			"versions <= 0, nil elements and a cancelled context are outside the statement: versions <= 0 are executed without assertion, the others are not generated",
+			"element ids are not restricted by the statement: negative ids (editor placeholders), 0, ids >= 2^40 and near +-2^62 are generated in every section and kind with histories under the same ids and fully asserted (the unchanged library yields the exact diff for them); only the ID field of *NoVisibleChildError is not asserted when an element without predecessor has an id outside [0, 2^40), because a packed FeatureID cannot name it (node -1, way -1 and relation -1 all pack to the same value)",
 			"'missing children are ignored' means IgnoreMissingChildren(true) was passed - the only option annotate.Change documents; Threshold, IgnoreInconsistency(true|false), ChildFilter and IgnoreMissingChildren(false) must not change the outcome: without IgnoreMissingChildren(true) a missing history and a missing earlier version alike are reported as the typed error",
 			"a panic of annotate.Change on such inputs is reported as a violation (no diff was yielded)",
 			"for datasources built by the library from an *osm.OSM / *osm.Change: the versions of a feature are returned in source order (creates, modifies, deletes for a change), create/modify entries are visible and delete entries are not (the model only places them so); the source object being modified is an observation, asserted only through its effect: building the datasource a second time from the same object must give the same diff",
@@ -1906,6 +1966,7 @@ func init() {
 					cs = append(cs, fw.Case{Kind: "enum-built", Seed: gen.Sub(13, "c13built", kind*2+mode), P: map[string]int64{"kind": int64(kind), "mode": int64(mode)}})
 				}
 			}
+			cs = append(cs, fw.Case{Kind: "enum-ids", Seed: gen.Sub(13, "c13ids", 0)})
 			for i := 0; i < n; i++ {
 				cs = append(cs, fw.Case{Kind: "random", Seed: gen.Sub(seed, "c13random", i)})
 			}
